@@ -179,7 +179,8 @@ func (s *TreeShapeListener) EnterDoc_string(ctx *parser.Doc_stringContext) {
 		text = fromQString(`"` + text + `"`)
 
 		if s.currentApp().Endpoints[s.endpointName].GetRestParams() != nil {
-			if x := s.peekScope().(*sysl.Endpoint); x != nil && len(x.Stmt) == 0 {
+			// (inside a block of the method the scope is that block, not the endpoint)
+			if x, isEndpoint := s.peekScope().(*sysl.Endpoint); isEndpoint && x != nil && len(x.Stmt) == 0 {
 				if len(x.Docstring) > 0 {
 					space = " "
 				}
@@ -1454,7 +1455,8 @@ func (s *TreeShapeListener) EnterText_stmt(ctx *parser.Text_stmtContext) {
 		s.pendingDocString = true
 
 		if s.currentApp().Endpoints[s.endpointName].GetRestParams() != nil {
-			if x := s.peekScope().(*sysl.Endpoint); x != nil && len(x.Stmt) == 0 {
+			// (inside a block of the method the scope is that block, not the endpoint)
+			if x, isEndpoint := s.peekScope().(*sysl.Endpoint); isEndpoint && x != nil && len(x.Stmt) == 0 {
 				return
 			}
 		}
